@@ -54,6 +54,10 @@ pub enum FaultKind {
     ExtraByte,
     /// After the complete range, one more 1-byte chunk.
     ExtraChunk,
+    /// The stream simply runs `at` bytes past the end of the range (entity bytes beyond the
+    /// range), chunked by the plan like the rest: an over-long chunk may straddle the end and
+    /// further chunks may follow it.
+    Overrun,
 }
 
 #[derive(Clone, Debug, PartialEq, Eq, Hash)]
@@ -101,7 +105,7 @@ impl EntSpec {
             "fault": self.fault.as_ref().map(|f| json!({
                 "call": f.call, "at": u64_to_json(f.at),
                 "kind": match f.kind { FaultKind::EarlyEnd => "early_end", FaultKind::Err => "err",
-                    FaultKind::ExtraByte => "extra_byte", FaultKind::ExtraChunk => "extra_chunk" }})),
+                    FaultKind::ExtraByte => "extra_byte", FaultKind::ExtraChunk => "extra_chunk", FaultKind::Overrun => "overrun" }})),
         })
     }
 
@@ -128,6 +132,7 @@ impl EntSpec {
                     "early_end" => FaultKind::EarlyEnd,
                     "err" => FaultKind::Err,
                     "extra_byte" => FaultKind::ExtraByte,
+                    "overrun" => FaultKind::Overrun,
                     _ => FaultKind::ExtraChunk,
                 },
             }),
@@ -314,11 +319,16 @@ impl http_serve::Entity for MonEntity {
             r.get_range.len() - 1
         };
         let fault = self.spec.fault.clone().filter(|f| f.call == call);
+        let overrun = match &fault {
+            Some(Fault { kind: FaultKind::Overrun, at, .. }) => *at,
+            _ => 0,
+        };
+        let fault = fault.filter(|f| f.kind != FaultKind::Overrun);
         Box::pin(RangeStream {
             spec: self.spec.clone(),
             rec: self.rec.clone(),
             start: range.start,
-            len: range.end.saturating_sub(range.start),
+            len: range.end.saturating_sub(range.start).saturating_add(overrun),
             done: 0,
             polls: 0,
             chunks: 0,
